@@ -34,6 +34,8 @@ MANIFEST = dict(
           "modelled) — instantiated for ConcurrentList over the C04 list models, the fixed CopyOnWriteArrayList "
           "(snapshot readers) and ConcurrentPriorityQueue over any heap refining the priority-queue specification; "
           "(3) syncx.Map.LoadOrStoreFunc = Load; fn; LoadOrStore is linearizable w.r.t. the atomic map specification. "
+          "Recorded observation (Props/C06Rev.lean): the linked queue is not lock-free - while one enqueuer sits between its two CASes no other Enqueue can link or complete (they spin); "
+          "conservation nodes = dequeued ++ queue ++ (at most one unswung) as a state invariant. "
           "Tie: the synchronisation skeletons of all 37 functions of the five files are regenerated from the source on "
           "every run and proved equal to the modelled ones; a Go harness records invocation/response histories of the "
           "real containers under 2-8 goroutines and the Lean driver decides by exhaustive search whether each history is "
